@@ -62,6 +62,17 @@ CLAIMED.update({
               'steps is covered by C08.'),
 })
 
+CLAIMED['C15'] = dict(
+    text='Theorem C15_selection_exact: for every source port tree and every rule sets (exclude arbitrary, include without ancestor '
+         'pairs) the leaves copied by the absorb model are exactly those selected under component-wise path matching, in order; '
+         'C15_sibling_with_shared_prefix_not_selected; C15_include_exclude_rejected. Independence of the copies (both directions), '
+         'namespace properties and option overrides, preservation of the destination\'s other ports are decided by Python '
+         'monitors on the real spec objects for every generated case.',
+    note='Modelled, not verified: the loop of PortNamespace.absorb with strip_namespace (value semantics). Object identity / '
+         'aliasing is not in the model (copy.copy, copy.deepcopy are trusted runtime); it is probed on the real objects.',
+    technique='Lean 4 structural-induction proof of the selection rule + differential correspondence and mutate-after probes on real specs',
+    design='6/C15')
+
 PENDING_REASON = 'check not built yet in this revision (planned: Lean model + correspondence, see DESIGN.md section 6)'
 
 
